@@ -37,6 +37,25 @@ fn main() {
             let only = replay.as_ref().and_then(|r| r.get("case")).and_then(|c| c.as_u64()).or(if a.has("case") { Some(a.u64("case", 0)) } else { None });
             e1::run(seed, shard, nshards, a.u64("cases", if thorough { 600 } else { 60 }), &bias, only, &mut rep);
         }
+        "e3" => {
+            let bias = replay.as_ref().and_then(|r| r.get("bias")).and_then(|b| b.as_str()).map(|b| b.to_string()).unwrap_or_else(|| a.str("bias", "mixed"));
+            let only = replay.as_ref().and_then(|r| r.get("case")).and_then(|c| c.as_u64()).or(if a.has("case") { Some(a.u64("case", 0)) } else { None });
+            let props: Vec<String> = a.str("props", "C01").split(',').map(|s| s.to_string()).collect();
+            e3::run(seed, shard, nshards, a.u64("cases", if thorough { 40 } else { 2 }), &bias, a.u64("parallel", 4) as usize, only, &props, &mut rep);
+        }
+        "e3c" => {
+            let only = replay.as_ref().map(|r| {
+                let f = &r["fault"];
+                let fault = if let Some(a) = f.get("abort") {
+                    e3c::Fault::Abort { process: a[0].as_u64().unwrap() as usize, k: a[1].as_u64().unwrap() as usize }
+                } else {
+                    let a = &f["kill_at_request"];
+                    e3c::Fault::KillAtRequest { process: a[0].as_u64().unwrap() as usize, j: a[1].as_u64().unwrap() }
+                };
+                (r["case"].as_u64().unwrap(), fault)
+            });
+            e3c::run(seed, shard, nshards, a.u64("cases", if thorough { 12 } else { 1 }), a.u64("max_faults", if thorough { 400 } else { 60 }) as usize, a.u64("parallel", 4) as usize, only, &mut rep);
+        }
         "e1c" => {
             let only = replay.as_ref().map(|r| {
                 let f = &r["fault"];
